@@ -3,6 +3,7 @@ package main
 // C13 — the metadata store is a deterministic compare-and-set register map.
 
 import (
+	"go/token"
 	"go/constant"
 	"go/types"
 	"strconv"
@@ -50,6 +51,7 @@ func checkC13(w *World, r *Report) {
 	c13Snapshot(w, r, meta, "C13.e", "e-snapshot-symmetry")
 	c13Locks(w, r)
 	c13Listings(w, r)
+	c13StoreOps(w, r, "C13.h", "h-store-operations-unconditional")
 }
 
 func c13Gate(w *World, r *Report, up *ssa.Function, idA, idB string) {
@@ -373,8 +375,136 @@ func c13Client(w *World, r *Report) {
 		if p := wk.Find(after(prop.(ssa.Instruction))); p != nil {
 			ob.Violate("proposal-error-ignored@"+m, instrPos(p.Hit), "RaftStore."+m+" can succeed without having tested the proposal's error", w.PathString(p)...)
 		}
+		// Set reports the pair the state machine answered with (the stored one on a mismatch): a
+		// pair other than the zero Pair is returned only after the result data was decoded
+		if m == "Set" {
+			isDecode := func(in ssa.Instruction) bool {
+				c := plainCall(in)
+				if c == nil || len(c.Args) != 2 {
+					return false
+				}
+				n := CalleeName(c)
+				return (n == "encoding/json.Unmarshal" || strings.HasSuffix(n, ".Unmarshal")) && strings.Contains(ctx.Expr(c.Args[0]), "prop#0.Data")
+			}
+			nDec := 0
+			eachInstr(fn, func(in ssa.Instruction) {
+				if isDecode(in) {
+					nDec++
+				}
+			})
+			if nDec == 0 {
+				ob.Violate("result-not-decoded@Set", fn.Pos(), "RaftStore.Set never decodes the pair the state machine answered with")
+			}
+			tgt := func(in ssa.Instruction) bool {
+				ret, ok := in.(*ssa.Return)
+				if !ok || len(ret.Results) < 1 {
+					return false
+				}
+				e := Expr(retVal(ret, 0))
+				return !strings.HasSuffix(e, "zero") && !strings.Contains(e, "complit") || strings.Contains(e, "local:pair")
+			}
+			if p := (&Walk{Barrier: isDecode, Target: tgt}).Find(after(prop.(ssa.Instruction))); p != nil {
+				ob.Violate("pair-not-decoded@Set", instrPos(p.Hit), "RaftStore.Set can hand out a pair without having decoded the state machine's answer: on a version mismatch the caller gets its own request back instead of the stored pair", w.PathString(p)...)
+			}
+		}
 	}
 	ob.NeedFloor(2)
+}
+
+// c13StoreOps: the map store's Set and Delete do what they are told on every path.
+func c13StoreOps(w *World, r *Report, id, slug string) {
+	ob := r.Ob(id, slug, "MapStore.Set: every path from the entry to a return crosses the map write, and the pair written carries the key, the value and the version it was given; MapStore.Delete: every path crosses the delete of the key", "the version gate sits in the state machine, which reports the entry's index as the new version: a Set that skips the write (value unchanged, ...) leaves the old version in the store while the writer is told the new one - the next compare-and-set with the reported version is refused, one with the stale version succeeds")
+	ms := w.NamedType("storage/kv", "MapStore")
+	if ms == nil {
+		ob.Undecided("anchor", "MapStore not found")
+		return
+	}
+	pt := types.NewPointer(ms)
+	if fn := w.MethodOf(pt, "Set"); fn != nil && len(fn.Params) == 4 {
+		var wr *ssa.MapUpdate
+		n := 0
+		eachInstr(fn, func(in ssa.Instruction) {
+			if mu, ok := in.(*ssa.MapUpdate); ok {
+				wr = mu
+				n++
+			}
+		})
+		if n != 1 {
+			ob.Violate("set-shape", fn.Pos(), "MapStore.Set no longer writes the map exactly once")
+		} else {
+			ob.Site(wr.Pos(), "MapStore.Set writes "+Expr(wr.Value)+" under "+Expr(wr.Key))
+			if p := (&Walk{Barrier: func(x ssa.Instruction) bool { return x == ssa.Instruction(wr) }, Target: isAnyReturn}).Find(entry(fn)); p != nil {
+				ob.Violate("set-skips-write", instrPos(p.Hit), "MapStore.Set can return without having written the pair: the stored version stays behind the one the state machine reports", w.PathString(p)...)
+			}
+			if Expr(wr.Key) != "$1" {
+				ob.Violate("set-key", wr.Pos(), "MapStore.Set writes under `"+Expr(wr.Key)+"`, not under the key it was given")
+			}
+			// the fields of the stored pair
+			want := map[string]string{"Key": "$1", "Value": "$2", "Ver": "$3"}
+			got := map[string]string{}
+			if al, ok := rootAlloc(wr.Value); ok {
+				for _, st := range storesToFields(fn, al) {
+					got[st.field] = Expr(st.val)
+				}
+			}
+			for f, wv := range want {
+				if got[f] != wv {
+					ob.Violate("set-pair/"+f, wr.Pos(), "the pair MapStore.Set stores has "+f+" = `"+got[f]+"`, expected the "+strings.ToLower(f)+" it was given")
+				}
+			}
+		}
+	} else {
+		ob.Undecided("anchor/Set", "MapStore.Set not found")
+	}
+	if fn := w.MethodOf(pt, "Delete"); fn != nil {
+		var del ssa.Instruction
+		eachInstr(fn, func(in ssa.Instruction) {
+			if c := callOf(in); c != nil && CalleeName(c) == "builtin.delete" {
+				del = in
+			}
+		})
+		if del == nil {
+			ob.Violate("delete-shape", fn.Pos(), "MapStore.Delete no longer deletes from the map")
+		} else {
+			ob.Site(del.Pos(), "MapStore.Delete deletes "+Expr(callOf(del).Args[1]))
+			if p := (&Walk{Barrier: func(x ssa.Instruction) bool { return x == del }, Target: isAnyReturn}).Find(entry(fn)); p != nil {
+				ob.Violate("delete-skips", instrPos(p.Hit), "MapStore.Delete can return without having deleted the key", w.PathString(p)...)
+			}
+			if Expr(callOf(del).Args[1]) != "$1" {
+				ob.Violate("delete-key", del.Pos(), "MapStore.Delete deletes `"+Expr(callOf(del).Args[1])+"`, not the key it was given")
+			}
+		}
+	} else {
+		ob.Undecided("anchor/Delete", "MapStore.Delete not found")
+	}
+	ob.NeedFloor(2)
+}
+
+type fieldStore struct {
+	field string
+	val   ssa.Value
+}
+
+// rootAlloc: the local struct a loaded value comes from (`*t` with t an Alloc).
+func rootAlloc(v ssa.Value) (*ssa.Alloc, bool) {
+	if u, ok := v.(*ssa.UnOp); ok && u.Op == token.MUL {
+		al, ok := u.X.(*ssa.Alloc)
+		return al, ok
+	}
+	return nil, false
+}
+
+// storesToFields: the field stores into a local struct.
+func storesToFields(fn *ssa.Function, al *ssa.Alloc) []fieldStore {
+	var out []fieldStore
+	eachInstr(fn, func(in ssa.Instruction) {
+		if st, ok := in.(*ssa.Store); ok {
+			if fa, ok := st.Addr.(*ssa.FieldAddr); ok && fa.X == ssa.Value(al) {
+				out = append(out, fieldStore{fieldAddrName(fa), st.Val})
+			}
+		}
+	})
+	return out
 }
 
 func c13Determinism(w *World, r *Report, up *ssa.Function) {
@@ -572,22 +702,21 @@ func c13Locks(w *World, r *Report) {
 				ob.Violate("unlocked-access@"+name, ac.Pos(), name+" touches the map without holding "+lockName, w.PathString(p)...)
 			}
 		}
-		// released only by a deferred unlock (held until return)
-		hasDefer := false
+		// not released before the access: from an explicit (not deferred) unlock no access is
+		// reachable without the lock having been taken again
 		eachInstr(fn, func(in ssa.Instruction) {
-			if d, ok := in.(*ssa.Defer); ok {
-				n := CalleeName(&d.Call)
-				if strings.HasSuffix(n, "Unlock") {
-					hasDefer = true
+			if !isExplicitUnlock(in) {
+				return
+			}
+			for _, ac := range accesses {
+				if ac.Parent() != fn {
+					continue
+				}
+				if p := (&Walk{Barrier: isLock, Target: func(x ssa.Instruction) bool { return x == ac }}).Find(after(in)); p != nil {
+					ob.Violate("early-unlock@"+name, in.Pos(), name+" releases the mutex and touches the map afterwards", w.PathString(p)...)
 				}
 			}
-			if c := plainCall(in); c != nil && strings.HasSuffix(CalleeName(c), "Unlock") && strings.HasPrefix(CalleeName(c), "(*sync.") {
-				ob.Violate("early-unlock@"+name, in.Pos(), name+" releases the mutex before returning")
-			}
 		})
-		if !hasDefer {
-			ob.Violate("no-deferred-unlock@"+name, fn.Pos(), name+" does not release the mutex through a deferred unlock")
-		}
 	}
 	ob.NeedFloor(7)
 }
@@ -748,4 +877,14 @@ func metaType(w *World) *types.Named {
 		}
 	}
 	return nil
+}
+
+// isExplicitUnlock: a plain (not deferred) call of Unlock / RUnlock of a sync mutex.
+func isExplicitUnlock(in ssa.Instruction) bool {
+	c := plainCall(in)
+	if c == nil {
+		return false
+	}
+	n := CalleeName(c)
+	return strings.HasPrefix(n, "(*sync.") && strings.HasSuffix(n, "Unlock")
 }
